@@ -262,6 +262,44 @@ func C10(p *Prog, r *Run) {
 			}
 		}
 		r.Check(okS, "adjustFitness.sort", p.Pos(adj.Pos()), "sort.Sort(sort.Reverse(Organisms)) precedes the marking", "adjustFitness does not sort the organisms by descending fitness before marking: Organisms[0] is not the fittest")
+		// the value sorted on must keep the order of distinct positive fitness values: every update of an organism's
+		// fitness before the sort is fitness*c, fitness/n, or a constant written only where the fitness is not positive
+		fitF := p.Field(PkgG, "Organism", "Fitness")
+		for _, st := range FieldStores(adj, fitF) {
+			vt := ta.Of(st.Val)
+			self := ta.Of(st.Addr).String()
+			okM, why := false, ""
+			switch {
+			case vt.Op == "bin" && (vt.Name == "*" || vt.Name == "/") && vt.Args[0].String() == self:
+				// a positive constant, an option value or the species size
+				o := vt.Args[1]
+				if o.Op == "const" {
+					okM = !strings.HasPrefix(o.Name, "-") && o.Name != "0"
+				} else {
+					okM = true
+				}
+				why = "scaled by " + o.String()
+			case vt.Op == "const":
+				// allowed only under fitness < c with c <= 0
+				for _, g := range Guards(st.Block()) {
+					gt := ta.Of(g.Cond)
+					if gt.Op == "bin" && (gt.Name == "<" || gt.Name == "<=") && g.True && gt.Args[0].String() == self && gt.Args[1].Op == "const" {
+						c := gt.Args[1].Name
+						if c == "0" || strings.HasPrefix(c, "-") {
+							okM = true
+						}
+						why = "replaced by " + vt.Name + " when fitness " + gt.Name + " " + c
+					}
+				}
+				if why == "" {
+					why = "replaced by the constant " + vt.Name
+				}
+			default:
+				why = "set to " + vt.String()
+			}
+			r.Check(okM, "adjustFitness.order-preserving", p.Pos(st.Pos()), "fitness update keeps the order of distinct positive values ("+why+")",
+				"before the species is sorted an organism's fitness is "+why+": distinct positive fitness values can become equal (or change order), so Organisms[0] - the organism that is cloned - need not be the fittest")
+		}
 		// Less: by Fitness ascending
 		less := p.Func(PkgG, "Organisms.Less")
 		tl := NewTermer(less)
